@@ -72,6 +72,12 @@ def held(obj):
             out.append((p, "a"))
         for m in obj._models.values():
             out.append((m, "a"))
+        # a parameter / model sitting in the plain instance dictionary of a Parametric object is an attribute
+        # assignment that was NOT registered: reported as an attribute input (the conformance check of the
+        # machine then fails: the registration rule says the owner must listen to it)
+        for v in vars(obj).values():
+            if isinstance(v, (AbstractParameter, Model)) and not any(v is c for c, _ in out):
+                out.append((v, "a"))
     if isinstance(obj, TransformedParameter):
         for v in vars(obj.transform).values():
             if isinstance(v, (AbstractParameter, Model)):
@@ -97,28 +103,51 @@ class Cell:
 class Graph:
     """real objects + the machine extracted from them"""
 
-    def __init__(self, values, flags_of_class, small=False, grads=None):
+    def __init__(self, values, flags_of_class, small=False, grads=None, dic=None):
         self.values0 = {k: list(v) for k, v in values.items()}
         self.small = small
-        self.dic = G.build(values, small=small, grads=grads)
+        self.registration_failures = []
+        if dic is None:
+            self.dic = G.build(values, small=small, grads=grads)
+            # registration bookkeeping of every post-construction attribute assignment of the build
+            for owner, attr, new, old in G.ASSIGNMENTS:
+                if not any(l is owner for l in listeners_of(new)):
+                    self.registration_failures.append(
+                        f"{type(owner).__name__}.{attr} = {type(new).__name__}[{new.id}]: the owner is not in the new "
+                        "parameter's listener list")
+        else:
+            self.dic = dic  # objects obtained otherwise (copy.deepcopy of a built graph)
         self.flags_of_class = flags_of_class
         AbstractParameter, Model, Parametric = _kinds()
         self.nodes = []
         self.idx = {}
         self.inputs = []
+        self.back_edges = []  # (holder, held) where `held` is an ancestor still under construction: a listener cycle
+        inprog = set()
 
         def visit(o):
-            if id(o) in self.idx or not isinstance(o, (AbstractParameter, Parametric)):
+            if id(o) in self.idx or id(o) in inprog or not isinstance(o, (AbstractParameter, Parametric)):
                 return
+            inprog.add(id(o))
             hs = held(o)
             for c, _ in hs:
                 visit(c)
             self.idx[id(o)] = len(self.nodes)
             self.nodes.append(o)
-            self.inputs.append([(self.idx[id(c)], org) for c, org in hs if org is not None])
+            self.inputs.append([(self.idx[id(c)], org) for c, org in hs if org is not None and id(c) in self.idx])
+            self.back_edges += [(o, c) for c, org in hs if org is not None and id(c) not in self.idx]
 
         for o in self.dic.values():
             visit(o)
+        # listeners that stay registered on an input their owner no longer holds (a replaced parameter keeps
+        # its old listener: Parametric.__setattr__ never unregisters) are kept as inputs that are read by nothing
+        self.leftover = []
+        for u, o in enumerate(self.nodes):
+            for l in listeners_of(o):
+                j = self.idx.get(id(l))
+                if j is not None and j > u and u not in [a for a, _ in self.inputs[j]]:
+                    self.inputs[j].append((u, "a"))
+                    self.leftover.append((j, u))
         self.name = {}
         for k, o in self.dic.items():
             if id(o) in self.idx:
@@ -158,7 +187,8 @@ class Graph:
             return 0
 
         def bl_tmpl(o):
-            return {"UnRootedTreeModel": 0, "TimeTreeModel": 1, "ReparameterizedTimeTreeModel": 1}[type(o).__name__]
+            return {"UnRootedTreeModel": 0, "TimeTreeModel": 1, "FlexibleTimeTreeModel": 1,
+                    "ReparameterizedTimeTreeModel": 1}[type(o).__name__]
 
         def add(j, tmpl, reads, get, name):
             self.cell_index[(j, tmpl)] = len(self.cells)
@@ -178,14 +208,18 @@ class Graph:
                 for v in vars(o.transform).values():
                     if isinstance(v, AbstractParameter):
                         rd.append((v, 0, 1))
-                    elif isinstance(v, Model):
+                    elif isinstance(v, Model) and self.idx[id(v)] < j:
+                        # (a node-height transform of the tree that HOLDS this parameter reads only the
+                        # tree's topology and tip dates: the tree comes later in the graph, nothing is read)
                         rd.append((v, bl_tmpl(v), 1))
                 add(j, 0, rd, lambda x: (x.tensor,), "tensor")
-                has_ld = True
+                has_ld = True  # (probed on the raw cached tensor: extraction must not call getters)
                 try:
-                    o()
+                    o.transform.log_abs_det_jacobian(o._tensor, o._tensor)
                 except NotImplementedError:
                     has_ld = False
+                except Exception:  # noqa: BLE001 — shapes of the probe: the method exists
+                    pass
                 if has_ld:  # transforms without a log-det-Jacobian have no such quantity
                     add(j, 1, [(o, 0, 1), (o.x, 0, 1)], lambda x: (x(),), "__call__")
             elif n == "Container":
@@ -198,7 +232,7 @@ class Graph:
                 add(j, 0, rd, lambda x: (), "contents")
             elif n == "UnRootedTreeModel":
                 add(j, 0, [(o._branch_lengths, 0, 1)], lambda x: (x.branch_lengths(),), "branch_lengths")
-            elif n == "TimeTreeModel":
+            elif n in ("TimeTreeModel", "FlexibleTimeTreeModel"):
                 add(j, 0, [(o._internal_heights, 0, 1)], lambda x: (x.node_heights,), "node_heights")
                 add(j, 1, [(o, 0, 1)], lambda x: (x.branch_lengths(),), "branch_lengths")
             elif n == "ReparameterizedTimeTreeModel":
@@ -206,10 +240,11 @@ class Graph:
                 add(j, 1, [(o, 0, 1)], lambda x: (x.branch_lengths(),), "branch_lengths")
                 add(j, 2, [(o, 0, 0), (o._internal_heights, 0, 1)], lambda x: (x(),), "__call__")
             elif n in ("ConstantSiteModel", "InvariantSiteModel", "WeibullSiteModel"):
-                add(j, 0, [(p, 0, 1) for p in o._parameters.values()],
+                add(j, 0, [(p, 0, 1) for p, _ in held(o)],
                     lambda x: (x.rates(), x.probabilities()), "rates")
             elif n in ("HKY", "GTR", "MG94"):
-                add(j, 0, [(p, 0, 1) for p in o._parameters.values()], lambda x: (x.q(), x.frequencies), "q")
+                add(j, 0, [(p, 0, 1) for p, _ in held(o) if self.idx[id(p)] < j and (j, self.idx[id(p)]) not in self.leftover],
+                    lambda x: (x.q(), x.frequencies), "q")
             elif n in ("StrictClockModel", "SimpleClockModel"):
                 add(j, 0, [(o._rates, 0, 1)], lambda x: (x.rates,), "rates")
             elif n == "SitePattern":
@@ -262,9 +297,11 @@ class Graph:
             return "c0:" + "+".join(map(str, ch))
         if n == "TransformedParameter":
             try:
-                o.transform.inv(o.tensor)
+                o.transform.inv(o._tensor)  # raw cached tensor: no getter is called
             except NotImplementedError:
                 return "n"
+            except Exception:  # noqa: BLE001
+                pass
             return f"t{self.idx[id(o.x)]}"
         return "n"
 
@@ -273,6 +310,10 @@ class Graph:
         for l in listeners_of(self.nodes[j]):
             if id(l) not in self.idx:
                 raise ExtractionError(f"listener {type(l).__name__} of {self.describe(j)} is not a node of the graph")
+            if self.idx[id(l)] < j:
+                # the echo edge of a listener cycle (tree -> the TransformedParameter over a transform of that tree);
+                # TransformedParameter's re-entrancy guard swallows it: not part of the DAG machine
+                continue
             out.append(self.idx[id(l)])
         return out
 
@@ -342,16 +383,26 @@ class Graph:
             for o, d in zip(self.nodes, snap):
                 vars(o).clear()
                 vars(o).update(d)
-        fresh_g = Graph(self.leaf_values_full(), self.flags_of_class, small=self.small, grads=self.leaf_grads())
-        if fresh_g.cls != self.cls:
-            raise ExtractionError("fresh rebuild has a different node list")
-        want = fresh_g.eval_all()
+        # (the values of a fresh rebuild depend on the leaf values only: memoised per leaf state)
+        key = (self.small, tuple(self.leaf_key(c) for c in self.leaf_cells))
+        want = _FRESH.get(key)
+        if want is None:
+            fresh_g = Graph(self.leaf_values_full(), self.flags_of_class, small=self.small, grads=self.leaf_grads())
+            if fresh_g.cls != self.cls:
+                raise ExtractionError("fresh rebuild has a different node list")
+            want = fresh_g.eval_all()
+            if len(_FRESH) > 400:
+                _FRESH.clear()
+            _FRESH[key] = want
         return [c for c in range(len(self.cells)) if not same(got[c], want[c])], got, want
 
     def leaf_values_full(self):
         vals = {k: list(v) for k, v in self.values0.items()}
         vals.update(self.leaf_values())
         return vals
+
+
+_FRESH = {}
 
 
 def same(a, b):
@@ -417,6 +468,7 @@ class Runner:
         self.ops_txt = []
         self.obs = []  # per step: dict(raised, exc, flags, leaves, stale)
         self.operators = {}
+        self.copy_not_isomorphic = None
         self.leaves0 = self.leaf_stamps()
         self.flags0 = self.g.flags()
         self.record(False, None)
@@ -458,6 +510,26 @@ class Runner:
                 except Exception as e:  # noqa: BLE001 — the implementation raised: that is an observation
                     raised, exc = True, exc_info(e)
                 self.ops_txt.append(f"{'A' if kind == 'assign' else 'I'}{j};{self.asg()}")
+            elif kind == "deepcopy":
+                # the history continues on copy.deepcopy of the whole graph (op["roots"]: copy only these objects —
+                # everything reachable from them, listeners included, comes along — and look the others up by id)
+                roots = op.get("roots")
+                src = g.dic if not roots else {k: g.dic[k] for k in roots}
+                try:
+                    cp = copy.deepcopy(src)
+                except Exception as e:  # noqa: BLE001
+                    cp, raised, exc = None, True, exc_info(e)
+                if cp is not None:
+                    if roots:
+                        cp = complete_by_id(cp, g.dic)
+                    g2 = Graph(g.values0, g.flags_of_class, small=g.small, dic=cp)
+                    if g2.machine_text() != g.machine_text():
+                        self.copy_not_isomorphic = first_difference(g, g2)
+                    if not roots and any(a is b for a, b in zip(g.nodes, g2.nodes)):
+                        self.copy_not_isomorphic = "the copy shares objects with the original"
+                    self.g = g = g2
+                    self.operators = {}
+                self.ops_txt.append("")
             elif kind == "reassign":
                 # t = p.tensor; t[i] = v; p.tensor = t  — in-place edit of the held tensor, then the SAME tensor
                 # object is assigned back (what ScalerOperator / SlidingWindowOperator do)
@@ -556,7 +628,47 @@ class Runner:
         nodes, cells = self.g.machine_text()
         leaves = " ".join(f"{c}={s}" for c, s in self.leaves0.items())
         flags = " ".join(f"{j}:{f}" for j, f in self.flags0)
-        return f"run {nodes} | {cells} | {leaves} | {flags} | " + " ".join(self.ops_txt)
+        return f"run {nodes} | {cells} | {leaves} | {flags} | " + " ".join(t for t in self.ops_txt if t)
+
+
+def complete_by_id(cp, orig):
+    """id dictionary of a partial deep copy: every object reachable from the copied roots (through what they hold
+    and through listener lists), keyed like the original dictionary"""
+    by_id = {}
+    seen = set()
+    stack = list(cp.values())
+    while stack:
+        o = stack.pop()
+        if id(o) in seen:
+            continue
+        seen.add(id(o))
+        if getattr(o, "id", None) is not None:
+            by_id.setdefault(o.id, o)
+        stack.extend(c for c, _ in held(o))
+        stack.extend(listeners_of(o))
+    out = {}
+    for k in orig:
+        if k in cp:
+            out[k] = cp[k]
+        elif k in by_id:
+            out[k] = by_id[k]
+        else:
+            out[k] = orig[k]  # another connected component: not copied, the original object stays in use
+    return out
+
+
+def first_difference(g, g2):
+    if g.cls != g2.cls:
+        return f"node lists differ ({len(g.nodes)} vs {len(g2.nodes)} nodes)"
+    for j in range(len(g.nodes)):
+        try:
+            a, b = g.real_listeners(j), g2.real_listeners(j)
+        except ExtractionError as e:
+            return str(e)
+        if a != b:
+            return (f"listeners of {g.describe(j)}: original {[g.describe(x) for x in a]}, "
+                    f"copy {[g2.describe(x) for x in b]}")
+    return "cells / inputs differ"
 
 
 def exc_info(e):
@@ -668,8 +780,10 @@ def gen_history(g: Graph, rng, length):
         if r < 0.30:
             n, t = rng.choice(named)
             hist.append({"op": "eval", "node": n, "cell": t})
-        elif r < 0.36:
+        elif r < 0.34:
             hist.append({"op": "evalall"})
+        elif r < 0.36 and not grad_on and not pending:
+            hist.append({"op": "deepcopy"})
         elif r < 0.44 and pending and not grad_on:
             hist.append({"op": "reject", "ref": pending.pop()})
         else:
@@ -698,6 +812,9 @@ def run_history(flags_of_class, drv, hist, want_model=True, small=False):
         if rn.apply(op, k):
             done.append(op)
     res = {"mismatch": None, "violation": None, "head": None, "steps": len(done), "runner": rn, "done": done}
+    if rn.g.registration_failures or rn.copy_not_isomorphic:
+        res["mismatch"] = {"what": "bookkeeping", "registration": rn.g.registration_failures,
+                           "deepcopy_not_isomorphic": rn.copy_not_isomorphic}
     # ---- oracle on the implementation
     for i, ob in enumerate(rn.obs):
         op = done[i - 1] if i > 0 else None
@@ -715,6 +832,8 @@ def run_history(flags_of_class, drv, hist, want_model=True, small=False):
             break
     # ---- correspondence with the Lean machine
     if drv is not None and want_model:
+        if res["mismatch"] is not None:
+            return res
         rep = drv.ask(rn.request())
         if not rep.startswith("ok "):
             res["mismatch"] = {"what": "driver rejected the request", "reply": rep[:200]}
@@ -854,9 +973,13 @@ def run(ck: Check):
     for n in notes:
         ck.notes.append("translator: " + n)
     flags_of_class = {d["name"]: d["flags"] for d in table}
+    setattr_src, setattr_ok, setattr_table = tr_wiring.translate_setattr()
+    ck.extra["setattr_table"] = [[k, d, a] for k, d, a in setattr_table]
+    if not setattr_ok:
+        ck.notes.append("translator: Parametric.__setattr__ has a statement shape that is not recognised")
     ok, broken = ck.lean_side(
-        {"TTGen/C11_Wiring.lean": lean_src},
-        ["TTGen.C11_Wiring", "TTModel.C11_Table", "drv_c11", "TTProofs.Props.C11"],
+        {"TTGen/C11_Wiring.lean": lean_src, "TTGen/C11_Setattr.lean": setattr_src},
+        ["TTGen.C11_Wiring", "TTGen.C11_Setattr", "TTModel.C11_Table", "drv_c11", "TTProofs.Props.C11"],
         "TTProofs/Props/C11.lean",
     )
     ck.extra["translator_recognised_source"] = tr_ok
@@ -947,7 +1070,7 @@ def run(ck: Check):
                         "ref": 1, "tune": 50.0 if kind == "dirichlet" else (0.5 if kind == "scaler" else 0.05)})
     if not ck.thorough():  # quick tier: every assignment target and every operator, a sample of the rest
         keep = [u for u in singles if u["op"] in ("assign", "propose", "draw")]
-        for kind, n in (("inplace", 12), ("reassign", 14), ("grad", 6)):
+        for kind, n in (("inplace", 8), ("reassign", 10), ("grad", 5)):
             pool = [u for u in singles if u["op"] == kind]
             keep += rng.sample(pool, min(n, len(pool)))
         singles_run = keep
@@ -969,7 +1092,7 @@ def run(ck: Check):
                     dep.setdefault(g0.leaf_id[lc], []).append((g0.name[ce.owner], ce.tmpl))
     leaves = sorted(dep)
     rng.shuffle(leaves)
-    for lid in leaves[: (len(leaves) if ck.thorough() else 10)]:
+    for lid in leaves[: (len(leaves) if ck.thorough() else 6)]:
         ds = dep[lid]
         a, b = (rng.sample(ds, 2) if len(ds) >= 2 else (ds[0], ds[0]))
         v1, v2 = value_for(g0, lid, rng), value_for(g0, lid, rng)
@@ -982,10 +1105,10 @@ def run(ck: Check):
     pairs = [(a, b) for a in singles for b in singles
              if a["op"] not in ("propose", "grad") and b["op"] not in ("propose", "grad")]
     rng.shuffle(pairs)
-    for a, b in pairs[: (500 if ck.thorough() else 15)]:
+    for a, b in pairs[: (500 if ck.thorough() else 8)]:
         handle([{"op": "evalall"}, dict(a), dict(b)], "exhaustive/warm+2")
     # cold start (flags as the constructors leave them), every single update
-    for u in singles[:: (1 if ck.thorough() else 9)]:
+    for u in singles[:: (1 if ck.thorough() else 14)]:
         if u["op"] != "propose":
             handle([dict(u)], "exhaustive/cold+1")
     # overlapping sibling views of one parameter (negative int, negative slices, LongTensor, bool mask; one
@@ -996,13 +1119,24 @@ def run(ck: Check):
         ea = {"op": "eval", "node": "prior_" + va, "cell": 0}
         v = value_for(g0, vb, rng)
         ups = [{"op": "assign", "target": vb, "value": v.reshape(-1).tolist(), "shape": list(v.shape)}]
-        if ck.thorough() or i % 3 == 0:
+        if ck.thorough() or i % 5 == 0:
             ups.append(gen_reassign(g0, rng, vb))
             ups.append({"op": "draw", "dist": "prior_" + vb, "seed": rng.randrange(1 << 30), "rsample": False})
             if vb != "v_neg_int":
                 ups.append({"op": "propose", "kind": "scaler", "params": [vb], "seed": rng.randrange(1 << 30), "ref": 1, "tune": 0.5})
         for u in ups:
             handle([dict(ea), dict(u), dict(ea)], "sibling-views")
+    # copy.deepcopy of the graph (cold, warm, and through a sub-set of roots), then updates ON THE COPY: the copy must
+    # be isomorphic to the original (listener edges included) and behave like a fresh rebuild
+    pool = [u for u in singles if u["op"] in ("assign", "inplace", "reassign", "draw")]
+    for u in rng.sample(pool, len(pool) if ck.thorough() else 8):
+        handle([{"op": "deepcopy"}, dict(u)], "deepcopy/cold")
+    for u in rng.sample(pool, 60 if ck.thorough() else 6):
+        handle([{"op": "evalall"}, {"op": "deepcopy"}, dict(u)], "deepcopy/warm")
+    for roots in (["joint"], ["coal_f"], ["like_t", "prior_v_long"], ["kappa_a", "site_i2"]):
+        for u in rng.sample(pool, 12 if ck.thorough() else 1):
+            handle([{"op": "evalall"}, {"op": "deepcopy", "roots": roots}, dict(u), {"op": "deepcopy"}, dict(u)],
+                   "deepcopy/sub-graph")
     # the plain TimeTreeModel seen only through node_heights by its coalescent
     for upd in ("assign", "inplace", "reassign"):
         v = value_for(g0, "heights3", rng)
@@ -1013,12 +1147,12 @@ def run(ck: Check):
         handle([dict(ec), u, {"op": "eval", "node": "ttree3", "cell": 1}, dict(ec)], "heights-only-observer")
 
     # ---- random histories
-    n_hist = 150 if ck.thorough() else 40
+    n_hist = 150 if ck.thorough() else 30
     max_len = 40 if ck.thorough() else 12
     for _ in range(n_hist):
         L = rng.randint(2, max_len)
         handle(gen_history(g0, rng, L), f"random/len<={((L - 1) // 10 + 1) * 10}")
-        if ck_time(ck) > (700 if ck.thorough() else 60):
+        if ck_time(ck) > (700 if ck.thorough() else 68):
             ck.notes.append("stopped random histories at the time budget")
             break
 
@@ -1039,10 +1173,10 @@ def run(ck: Check):
     depth2 = list(itertools.product(alphabet, repeat=2))
     if not ck.thorough():
         rng.shuffle(depth2)
-        depth2 = depth2[:100]
+        depth2 = depth2[:80]
     for a, b in depth2:
         handle([dict(a), dict(b)], "exhaustive-small/len2", small=True)
-        if not ck.thorough() and ck_time(ck) > 70:
+        if not ck.thorough() and ck_time(ck) > 78:
             break
     if ck.thorough():
         upd = [o for o in alphabet if o["op"] != "eval"]
